@@ -4,7 +4,6 @@ import (
 	"fmt"
 	"os"
 	"regexp"
-	"sort"
 	"strings"
 )
 
@@ -13,6 +12,7 @@ import (
 // names, not line numbers: lines move with every fix).
 type RaceReport struct {
 	Pair string
+	Alt  []string // pairs formed with the callers of the innermost functions
 	Text string
 }
 
@@ -45,22 +45,25 @@ func DrainRaceReports() (out []RaceReport) {
 		}
 		// the two access stacks come first, separated by blank lines
 		secs := strings.Split(block, "\n\n")
-		var fns []string
+		var fns [][]string // per access: the two innermost kelindar/column functions
 		for _, sec := range secs {
 			head := strings.TrimSpace(sec)
 			if !(strings.Contains(head, " at 0x") && (strings.HasPrefix(head, "WARNING") || strings.HasPrefix(head, "Previous") || strings.HasPrefix(head, "Read") || strings.HasPrefix(head, "Write"))) {
 				continue
 			}
-			fn := "?"
+			var fn []string
 			for _, m := range frameRe.FindAllStringSubmatch(sec, -1) {
 				if strings.HasPrefix(m[1], "github.com/kelindar/column") {
-					fn = strings.TrimPrefix(m[1], "github.com/kelindar/")
-					break
+					fn = append(fn, strings.TrimPrefix(m[1], "github.com/kelindar/"))
+					if len(fn) == 2 {
+						break
+					}
 				}
 			}
-			if fn == "?" {
+			if len(fn) == 0 {
+				fn = []string{"?"}
 				if m := frameRe.FindStringSubmatch(sec); m != nil {
-					fn = m[1]
+					fn[0] = m[1]
 				}
 			}
 			fns = append(fns, fn)
@@ -69,14 +72,28 @@ func DrainRaceReports() (out []RaceReport) {
 			}
 		}
 		for len(fns) < 2 {
-			fns = append(fns, "?")
+			fns = append(fns, []string{"?"})
 		}
-		sort.Strings(fns)
+		pair := func(a, b string) string {
+			if b < a {
+				a, b = b, a
+			}
+			return a + " <-> " + b
+		}
+		primary := pair(fns[0][0], fns[1][0])
+		var alt []string
+		for i, a := range fns[0] {
+			for j, b := range fns[1] {
+				if p := pair(a, b); (i > 0 || j > 0) && p != primary {
+					alt = append(alt, p)
+				}
+			}
+		}
 		text := strings.TrimSpace(block)
 		if len(text) > 1800 {
 			text = text[:1800] + " ..."
 		}
-		out = append(out, RaceReport{Pair: fns[0] + " <-> " + fns[1], Text: text})
+		out = append(out, RaceReport{Pair: primary, Alt: alt, Text: text})
 	}
 	return out
 }
